@@ -5,6 +5,10 @@ GEN   specs/collfs/CollFSFlush.tla  MC_CollFSFlush_C09*.cfg: the segment/flush m
                                     (every placement of failures within the bounds): content intact after a failed
                                     write, a successful synchronous flush leaves only stored segments
       specs/collfs/CollFSGen.tla    call sequences (shortest path to every distinct contract state), as in C08
+      specs/collfs/CollFSFlushDir.tla  MC_/Gen_CollFSFlushDir_C09*.cfg: two directories; scope of Flush("" | "." | dir,
+                                    shortBlocks), per-directory packing, Sync/MarshalManifest: content unchanged,
+                                    no block across directories, other directories untouched, what is stored
+                                    afterwards; its scenarios are replayed and the stored-ness compared (drift)
 RUN   harness/C08_arvados + harness/C09_arvados: real CollectionFileSystem, recording Keep that fails the k-th
                                     write (every k) / at a rate / only in background / only in the final save;
                                     names over bytes 0x01-0xff; saves by MarshalManifest / Sync / Flush+Marshal;
@@ -72,6 +76,14 @@ def run(ctx):
     else:
         ctx.tlc(SD, "CollFSFlush", "MC_CollFSFlush_C09_big.cfg" if ctx.thorough else "MC_CollFSFlush_C09.cfg",
             timeout=1500, label="exhaustive: segment/flush model with failing Keep writes (content intact, sync flush complete, no hazard)")
+    if not C08.SKIP_MC:
+        ctx.tlc(SD, "CollFSFlushDir", "MC_CollFSFlushDir_C09_big.cfg" if ctx.thorough else "MC_CollFSFlushDir_C09.cfg",
+                timeout=2400, label="exhaustive: Flush scope / per-directory packing / Marshal over two directories with failing writes")
+    fdirs, r = ctx.gen(SD, "CollFSFlushDir", "Gen_CollFSFlushDir_C09.cfg", timeout=1500,
+                       label="flush-scope scenarios with the model's stored-ness prediction after every call")
+    fdirs.sort(key=lambda d: repr(d))
+    rnd.shuffle(fdirs)
+    fdirs = fdirs[:(2500 if ctx.thorough else 200)]
     paths, r = ctx.gen(SD, "CollFSGen", "Gen_CollFS_C08_big.cfg" if ctx.thorough else "Gen_CollFS_C08.cfg",
                        timeout=1500, label="contract state space + call sequence emission")
     paths = [p for p in paths if len(p["ops"]) >= 2]
@@ -80,11 +92,38 @@ def run(ctx):
     # sequences that end with data in some file are the interesting ones for saving
     paths = [p for p in paths if any(o["op"] == "write" for o in p["ops"])][:(1200 if ctx.thorough else 160)]
     scns = build_scenarios(ctx, paths, rnd)
+    sid = max(s["id"] for s in scns)
+    for d in fdirs:
+        sid += 1
+        scns.append({"id": sid, "mode": "flushdir", "bs": d["bs"], "fsteps": d["fsteps"], "rseed": ctx.seed, "flush": "none",
+                     "init": "empty", "gen": "flushdir"})
     by_id = {s["id"]: s for s in scns}
-    ctx.extra["scenarios"] = {"tlc_paths": len(paths), "total": len(scns)}
+    ctx.extra["scenarios"] = {"tlc_paths": len(paths), "flushdir": len(fdirs), "total": len(scns)}
     ov = ctx.harness_overlay(PKG, "harness/C08_arvados")
     ov.update(ctx.harness_overlay(PKG, "harness/C09_arvados"))
     events, out = C08.run_driver(ctx, PKG, ov, "TestVerifC09$", scns, timeout=2400)
+    # flush-scope scenarios: the accessor's observations against the model's prediction (drift only),
+    # then the observations are dropped: the contract judges the ordinary events
+    nobs = bad = 0
+    for t in vlib.split_traces(events):
+        scn = by_id.get(t[0].get("scn"))
+        if not scn or scn.get("mode") != "flushdir":
+            continue
+        exp = [st["stored"] for st in scn["fsteps"] if st["op"] == "expect"]
+        obs = [e for e in t if e["ev"] == "stored"]
+        for i, o in enumerate(obs):
+            nobs += 1
+            if i >= len(exp) or o["files"] != exp[i] or o["cross"]:
+                bad += 1
+                if bad == 1:
+                    ctx.drift.append("flush scope: scenario %s observation %d: real %s cross=%s, model %s"
+                                     % (scn["id"], i, o["files"], o["cross"], exp[i] if i < len(exp) else None))
+        if len(obs) != len(exp):
+            bad += 1
+    if bad > 1:
+        ctx.drift.append("flush scope: %d of %d stored-ness observations differ from CollFSFlushDir" % (bad, nobs))
+    ctx.extra["flushdir_observations"] = nobs
+    events = [e for e in events if e["ev"] != "stored"]
     traces = vlib.split_traces(events)
     ctx.evaluations = len(traces)
     ctx.extra["events_judged"] = len(events)
